@@ -103,6 +103,12 @@ func genDataEnv() *rapid.Generator[*dataEnv] {
 		e.add("f1", genFloatValue().Draw(rt, "f1"))
 		e.add("s1", spec.String(rapid.SampledFrom(plainStrings).Draw(rt, "s1")))
 		e.add("b1", spec.Bool(rapid.Bool().Draw(rt, "b1")))
+		if rapid.IntRange(0, 3).Draw(rt, "keywordLikeNames") == 0 {
+			// words of the language in another letter case are ordinary variable names
+			e.add("True", spec.IntOf(spec.TInt, int64(rapid.IntRange(2, 9).Draw(rt, "vTrue"))))
+			e.add("NIL", spec.String(rapid.SampledFrom(plainStrings).Draw(rt, "vNIL")))
+			e.add("In", spec.Bool(rapid.Bool().Draw(rt, "vIn")))
+		}
 		if rapid.Bool().Draw(rt, "more") {
 			e.add("i3", genIntValue().Draw(rt, "i3"))
 			e.add("f2", genFloatValue().Draw(rt, "f2"))
@@ -530,6 +536,9 @@ func genSpecValue(depth int, unsupported bool) *rapid.Generator[*spec.Value] {
 			vals := make([]*spec.Value, n)
 			for i := range vals {
 				vals[i] = spec.Any(genSpecValue(depth-1, unsupported).Draw(rt, "mapVal"))
+			}
+			if rapid.IntRange(0, 4).Draw(rt, "definedKeyType") == 0 {
+				return spec.RoleMap(spec.T(spec.TAny), keys, vals)
 			}
 			return spec.Map(spec.T(spec.TAny), keys, vals)
 		case 11:
